@@ -42,7 +42,7 @@ class Divergence(HarnessError):
 class RandomChooser(object):
     """Seeded scheduling strategies (DESIGN 3.3).
 
-    cfg keys: strategy in {uniform, sticky, pct, pb}; p (sticky); d (pct depth / pb count);
+    cfg keys: strategy in {uniform, sticky, pct, pb, rd}; p (sticky); q, max_hold (rd); d (pct depth / pb count);
     est (estimated run length in steps for pct/pb); line_q (probability that a LINE event is
     a yield point); stall_p (probability of a thread stall at a yield point).
     """
@@ -66,6 +66,16 @@ class RandomChooser(object):
         if self.strategy in ("pct", "pb"):
             # line events are all potential yield points for these strategies
             self.line_q = cfg.get("line_q", 1.0)
+        self.cur_why = None
+        self.cur_obj = None
+        if self.strategy == "rd":
+            # race-directed: a thread about to acquire a lock may be held back until another
+            # thread arrives at the same lock (then a coin decides who goes first) - places two
+            # pre-emptions around one object, which uniform placement finds once in ~est^2 runs
+            self.q = cfg.get("q", 0.25)
+            self.max_hold = int(cfg.get("max_hold", 300))
+            self.held = {}
+            self.conflicts = 0
 
     def line(self, step):
         q = self.line_q
@@ -97,6 +107,35 @@ class RandomChooser(object):
                         return others[rng.randrange(len(others))]
                 return cur
             return cands[rng.randrange(len(cands))]
+        if s == "rd":
+            held = self.held
+            for tid in [k for (k, v) in held.items() if v[1] <= step]:
+                del held[tid]
+            if cur is not None and cur.status == RUNNABLE:
+                held.pop(cur.tid, None)
+                obj = self.cur_obj if self.cur_why == "acq" else None
+                if obj is not None:
+                    rivals = [t for t in cands if t is not cur and t.tid in held and held[t.tid][0] is obj]
+                    if rivals:
+                        self.conflicts += 1
+                        if rng.random() < 0.5:
+                            r = rivals[0]
+                            del held[r.tid]
+                            held[cur.tid] = (obj, step + self.max_hold)
+                            return r
+                        return cur
+                    if len(held) < 2 and rng.random() < self.q:
+                        others = [t for t in cands if t is not cur and t.tid not in held]
+                        if others:
+                            held[cur.tid] = (obj, step + self.max_hold)
+                            return others[rng.randrange(len(others))]
+                return cur
+            free = [t for t in cands if t.tid not in held]
+            if free:
+                return free[rng.randrange(len(free))]
+            t = cands[rng.randrange(len(cands))]
+            del held[t.tid]
+            return t
         if s == "pct":
             prio = self.prio
             for t in cands:
@@ -238,6 +277,9 @@ class Sim(object):
         self.spin_bound = 20000    # ... by a lone runnable thread, without ever blocking: a spin
         self.fair_switches = 0
         self.spin_jumps = 0
+        self.coalesce_ns = 0       # fault: timers due within this window of the earliest one fire together (late wake-ups)
+        self.coalesced = 0
+        self.late_ns = 0
 
     # ------------------------------------------------------------------ logging / ids
     def next_serial(self):
@@ -451,7 +493,7 @@ class Sim(object):
         if self.aborting:
             raise SimAbort()
 
-    def yield_point(self, why):
+    def yield_point(self, why, obj=None):
         if self.aborting:
             raise SimAbort()
         self.step += 1
@@ -477,7 +519,11 @@ class Sim(object):
                 if nxt is not me:
                     self._switch(me, nxt, "fair")
                 return
+            ch = self.chooser
+            ch.cur_why = why
+            ch.cur_obj = obj
             nxt = self._choose(cands, why)
+            ch.cur_obj = None
             if nxt is not me:
                 self.preemptions += 1
                 self._switch(me, nxt, why)
@@ -578,6 +624,14 @@ class Sim(object):
                     self._end("stuck", tuple(self._blocked_desc()))
                 self._end("quiescent")
             d = min(t.deadline for t in timed)
+            if self.coalesce_ns:
+                # a timer may fire late, never early: everything due within the window wakes at
+                # the latest of those deadlines, so that the woken threads really run concurrently
+                d2 = max(t.deadline for t in timed if t.deadline <= d + self.coalesce_ns)
+                if d2 > d:
+                    self.coalesced += 1
+                    self.late_ns += d2 - d
+                    d = d2
             if d > self.horizon_ns:
                 self._end("horizon", tuple(self._blocked_desc()))
             old = self.now_ns
@@ -679,7 +733,7 @@ class SimLock(object):
         sim = self._sim
         if sim.finished:
             return True
-        sim.yield_point("acq")
+        sim.yield_point("acq", self)
         me = sim.cur
         if not self._locked:
             self._locked = True
@@ -768,7 +822,7 @@ class SimRLock(object):
         if self._owner_ts is me:
             self._count += 1
             return True
-        sim.yield_point("acq")
+        sim.yield_point("acq", self)
         if self._owner_ts is None:
             self._owner_ts = me
             self._count = 1
@@ -1115,6 +1169,27 @@ class SimThread(object):
             self._ts.joiners.remove(t)
 
 
+class SimTimer(SimThread):
+    """threading.Timer on the virtual clock (the library does not use it today)."""
+
+    def __init__(self, interval, function, args=None, kwargs=None):
+        SimThread.__init__(self, target=self._timer_body)
+        self.interval = interval
+        self.function = function
+        self.args = args if args is not None else []
+        self.kwargs = kwargs if kwargs is not None else {}
+        self.finished = SimEvent()
+
+    def _timer_body(self):
+        self.finished.wait(self.interval)
+        if not self.finished.is_set():
+            self.function(*self.args, **self.kwargs)
+        self.finished.set()
+
+    def cancel(self):
+        self.finished.set()
+
+
 # ----------------------------------------------------------------------------------------
 # dispatchers: a simulated object when called by the baton holder of a run, else the real one
 # ----------------------------------------------------------------------------------------
@@ -1134,6 +1209,7 @@ Condition = _mk(SimCondition, _rt.Condition)
 Event = _mk(SimEvent, _rt.Event)
 Semaphore = _mk(SimSemaphore, _rt.Semaphore)
 Thread = _mk(SimThread, _rt.Thread)
+Timer = _mk(SimTimer, _rt.Timer)
 SimpleQueue = _mk(SimSimpleQueue, _rqueue.SimpleQueue)
 
 
@@ -1169,16 +1245,36 @@ def wall_time():
     return _rtime.time()
 
 
+def _sim_queue_classes():
+    """queue.Queue / LifoQueue / PriorityQueue are pure Python over threading.Lock/Condition and
+    time.monotonic: the same source executed in a namespace whose `threading` and `time` are
+    the simulated ones gives simulated queues (the library does not use them today; a change
+    that starts to must not run on real locks)."""
+    import inspect
+    ns = {"__name__": "sim_queue"}
+    exec(compile(inspect.getsource(_rqueue), "<sim-queue>", "exec"), ns)
+    ns["threading"] = Shim(_rt, Lock=SimLock, RLock=SimRLock, Condition=SimCondition)
+    ns["time"] = monotonic
+    ns["Full"] = _rqueue.Full
+    ns["Empty"] = _rqueue.Empty
+    return ns["Queue"], ns["LifoQueue"], ns["PriorityQueue"]
+
+
+(SimQueue, SimLifoQueue, SimPriorityQueue) = _sim_queue_classes()
+Queue = _mk(SimQueue, _rqueue.Queue)
+LifoQueue = _mk(SimLifoQueue, _rqueue.LifoQueue)
+PriorityQueue = _mk(SimPriorityQueue, _rqueue.PriorityQueue)
+
 threading_shim = Shim(_rt, Lock=Lock, RLock=RLock, Condition=Condition, Event=Event,
-                      Semaphore=Semaphore, BoundedSemaphore=Semaphore, Thread=Thread)
+                      Semaphore=Semaphore, BoundedSemaphore=Semaphore, Thread=Thread, Timer=Timer)
 time_shim = Shim(_rtime, monotonic=monotonic, sleep=sleep, time=wall_time, perf_counter=monotonic)
-queue_shim = Shim(_rqueue, SimpleQueue=SimpleQueue)
+queue_shim = Shim(_rqueue, SimpleQueue=SimpleQueue, Queue=Queue, LifoQueue=LifoQueue, PriorityQueue=PriorityQueue)
 
 REAL_TO_SIM = {
     _rt.Lock: Lock, _rt.RLock: RLock, _rt.Condition: Condition, _rt.Event: Event,
-    _rt.Semaphore: Semaphore, _rt.BoundedSemaphore: Semaphore, _rt.Thread: Thread,
+    _rt.Semaphore: Semaphore, _rt.BoundedSemaphore: Semaphore, _rt.Thread: Thread, _rt.Timer: Timer,
     _rtime.monotonic: monotonic, _rtime.sleep: sleep, _rtime.time: wall_time, _rtime.perf_counter: monotonic,
-    _rqueue.SimpleQueue: SimpleQueue,
+    _rqueue.SimpleQueue: SimpleQueue, _rqueue.Queue: Queue, _rqueue.LifoQueue: LifoQueue, _rqueue.PriorityQueue: PriorityQueue,
     # whole modules bound by `import threading` / `import time` / `import queue`
     _rt: threading_shim, _rtime: time_shim, _rqueue: queue_shim,
 }
